@@ -2,12 +2,51 @@ module verifharness
 
 go 1.24.0
 
-require github.com/itchio/wharf v0.0.0
+require (
+	github.com/itchio/headway v0.0.0-20251229214354-da882c8b5dd4
+	github.com/itchio/lake v0.0.0-20200305150023-cc4284ec2b2a
+	github.com/itchio/wharf v0.0.0
+)
 
 require (
-	github.com/itchio/headway v0.0.0-20251229214354-da882c8b5dd4 // indirect
-	github.com/itchio/lake v0.0.0-20200305150023-cc4284ec2b2a // indirect
+	github.com/certifi/gocertifi v0.0.0-20210507211836-431795d63e8d // indirect
+	github.com/cespare/xxhash/v2 v2.3.0 // indirect
+	github.com/detailyang/go-fallocate v0.0.0-20180908115635-432fa640bd2e // indirect
+	github.com/efarrer/iothrottler v0.0.3 // indirect
+	github.com/getlantern/context v0.0.0-20220418194847-3d5e7a086201 // indirect
+	github.com/getlantern/errors v1.0.4 // indirect
+	github.com/getlantern/golog v0.0.0-20230503153817-8e72de7e0a65 // indirect
+	github.com/getlantern/hex v0.0.0-20220104173244-ad7e4b9194dc // indirect
+	github.com/getlantern/hidden v0.0.0-20220104173330-f221c5a24770 // indirect
+	github.com/getlantern/idletiming v0.0.0-20231030193830-6767b09f86db // indirect
+	github.com/getlantern/mtime v0.0.0-20200417132445-23682092d1f7 // indirect
+	github.com/getlantern/netx v0.0.0-20251021221514-279deb2cfd40 // indirect
+	github.com/getlantern/ops v0.0.0-20231025133620-f368ab734534 // indirect
+	github.com/go-logr/logr v1.4.3 // indirect
+	github.com/go-logr/stdr v1.2.2 // indirect
+	github.com/go-stack/stack v1.8.1 // indirect
+	github.com/gogs/chardet v0.0.0-20211120154057-b7413eaefb8f // indirect
+	github.com/golang/protobuf v1.5.4 // indirect
+	github.com/itchio/arkive v0.0.0-20200618123031-1a30392a8cfe // indirect
+	github.com/itchio/httpkit v0.0.0-20251231162950-9fb57e6ac916 // indirect
+	github.com/itchio/kompress v0.0.0-20200301155538-5c2eecce9e51 // indirect
+	github.com/itchio/ox v0.0.0-20200826161350-12c6ca18d236 // indirect
+	github.com/itchio/savior v0.0.0-20200618124148-6034e878d75b // indirect
+	github.com/itchio/screw v0.0.0-20200301160148-75fc2d65fb38 // indirect
+	github.com/klauspost/compress v1.18.3 // indirect
+	github.com/mitchellh/copystructure v1.2.0 // indirect
+	github.com/mitchellh/reflectwalk v1.0.2 // indirect
+	github.com/oxtoacart/bpool v0.0.0-20190530202638-03653db5a59c // indirect
 	github.com/pkg/errors v0.9.1 // indirect
+	go.opentelemetry.io/auto/sdk v1.2.1 // indirect
+	go.opentelemetry.io/otel v1.39.0 // indirect
+	go.opentelemetry.io/otel/metric v1.39.0 // indirect
+	go.opentelemetry.io/otel/trace v1.39.0 // indirect
+	go.uber.org/multierr v1.11.0 // indirect
+	go.uber.org/zap v1.27.1 // indirect
+	golang.org/x/net v0.49.0 // indirect
+	golang.org/x/text v0.33.0 // indirect
+	google.golang.org/protobuf v1.36.11 // indirect
 )
 
 replace github.com/itchio/wharf => /repo
